@@ -132,7 +132,7 @@ impl<'a> Model<'a> {
                 St::Timed => {
                     if links::certainly_arrived(send, self.lmax, self.tick, m) {
                         St::Timed
-                    } else if links::certainly_in_flight(send, self.lmin, m) {
+                    } else if links::certainly_in_flight(send, self.lmin, self.tick, m) {
                         ms.was_held = true;
                         caught += 1;
                         St::Held
